@@ -115,3 +115,11 @@ Theorem C17_code_array_programs_are_the_model : forall (mask : arr bool) (n : na
   gen_create_combination_grid grids mask = combination_grid grids mask.
 Proof. intros. split; [apply gen_create_indexers_and_segments_is_model|apply gen_create_combination_grid_is_model]. Qed.
 Print Assumptions C17_code_array_programs_are_the_model.
+
+(* the filter mask and the meshgrid that is indexed with it have the same axes in the same order:   *)
+(* the grids of the restricted variables in the order of model.grids                                   *)
+Theorem C17_code_mask_and_meshgrid_axes_agree : forall grid_names subset,
+  gen_filter_mask_axis_names grid_names subset = gen_combination_grid_axis_names grid_names subset /\
+  gen_filter_mask_axis_names grid_names subset = filter (fun name => mem_str name subset) grid_names.
+Proof. intros. split; reflexivity. Qed.
+Print Assumptions C17_code_mask_and_meshgrid_axes_agree.
